@@ -663,6 +663,12 @@ pub fn analyse(case: &ChanCase, run: &ChanRun) -> CaseReport {
             rep.class("cell-cross-thread");
         }
     }
+    if rep.violations.iter().any(|v| v.key == "C07/race") {
+        // a take that is not ordered after the write of the value it takes: under the declared
+        // orderings what it obtains is indeterminate, so "every value obtained was sent, exactly
+        // once" cannot hold in that (allowed) execution
+        rep.violations.push(Viol { key: "C06/racy-value".into(), msg: "a payload cell was accessed without happens-before ordering to its previous access: the value obtained by that receive is indeterminate under the declared orderings".into() });
+    }
     rep.violations.dedup_by(|a, b| a.key == b.key);
     rep.sample = Some(render(case, run, &ops));
     rep
@@ -719,11 +725,42 @@ pub fn run_case(case: &ChanCase) -> CaseReport {
     rep
 }
 
+/// The bare channel in-process, plus - for C07 and C08 - the channels the info-carrying
+/// exfiltrators build for the signals of an iterator instance (lowest, an ordinary and the highest
+/// real-time number), reached through real iterator scenarios under the same executor.
+#[derive(Clone, Debug, Serialize, Deserialize)]
+pub enum ChanAny {
+    Chan(ChanCase),
+    Iter(crate::iter::IterCase),
+}
+
+fn run_any(c: &ChanAny) -> CaseReport {
+    match c {
+        ChanAny::Chan(c) => run_case(c),
+        ChanAny::Iter(c) => {
+            let mut r = crate::iter::run_case(c);
+            r.classes.push("channel-inside-iterator".into());
+            r
+        }
+    }
+}
+
 fn worker(def: &PropDef, args: &WorkerArgs) -> WorkerReport {
-    generic_worker(def, args, strategy(), &run_case)
+    if def.id == "C06" {
+        return generic_worker(def, args, strategy().prop_map(ChanAny::Chan).boxed(), &run_any);
+    }
+    let iter_cases = crate::iter::strategy(false).prop_map(|mut c| {
+        c.exf = 1 + c.exf % 2; // WithRawSiginfo / WithOrigin: the exfiltrators built on the channel
+        ChanAny::Iter(c)
+    });
+    let s = prop_oneof![24 => strategy().prop_map(ChanAny::Chan), 1 => iter_cases].boxed();
+    generic_worker(def, args, s, &run_any)
 }
 
 fn replay(v: &Value) -> CaseReport {
+    if let Ok(c) = serde_json::from_value::<ChanAny>(v.clone()) {
+        return run_any(&c);
+    }
     let case: ChanCase = serde_json::from_value(v.clone()).expect("case");
     run_case(&case)
 }
@@ -749,7 +786,7 @@ pub static C06: PropDef = PropDef {
 pub static C07: PropDef = PropDef {
     id: "C07",
     prefixes: &["C07/"],
-    rule: "same generated runs as C06; oracle: vector-clock race check on the CellWrite/CellTake events (declared orderings), strict write/take alternation per cell, drop ledger ==1 per sent value, discarded values dropped inside send. Non-trivial = overlapping operations or nested operation; distinct = hash of realised interleaving",
+    rule: "same generated runs as C06, plus (1 case in 25) iterator scenarios with the info-carrying exfiltrators, whose per-signal channels (signals 1, 12 and the real-time 64) are judged by the same cell rules; oracle: vector-clock race check on the CellWrite/CellTake events (declared orderings), strict write/take alternation per cell, drop ledger ==1 per sent value, discarded values dropped inside send. Non-trivial = overlapping operations or nested operation; distinct = hash of realised interleaving",
     assumptions: ASSUME,
     cases: (4000, 100_000),
     shrink_iters: 4000,
@@ -761,7 +798,7 @@ pub static C07: PropDef = PropDef {
 pub static C08: PropDef = PropDef {
     id: "C08",
     prefixes: &["C08/"],
-    rule: "same generated runs as C06 with isolated (all other threads frozen) sends/recvs on own thread, nested or not; oracle: isolated op <= 4+s atomic steps (s = injected spurious failures), no wait operation, no panic anywhere, no step-bound overrun. Non-trivial = overlapping operations or nested operation; distinct = hash of realised interleaving",
+    rule: "same generated runs as C06 (plus 1 in 25 iterator scenarios over the exfiltrators' channels: a consumer or handler panicking with one of the channel's two messages counts) with isolated (all other threads frozen) sends/recvs on own thread, nested or not; oracle: isolated op <= 4+s atomic steps (s = injected spurious failures), no wait operation, no panic anywhere, no step-bound overrun. Non-trivial = overlapping operations or nested operation; distinct = hash of realised interleaving",
     assumptions: ASSUME,
     cases: (4000, 100_000),
     shrink_iters: 4000,
